@@ -98,6 +98,12 @@ func spoil(g *model.G, slot, n int, more ...int) *model.G {
 	if len(slots) > 0 {
 		k := slot % len(slots)
 		*slots[k] = bad(n)
+		// a coordinate of length 0 comes in two forms, an empty slice and nil; outside a
+		// MultiPoint (where nil is the EMPTY member) both are wrong-length coordinates
+		// (and outside a Point, whose nil coordinate is the model's EMPTY point)
+		if n == 0 && s.Kind != model.MultiPoint && s.Kind != model.Point && slot%2 == 1 {
+			*slots[k] = nil
+		}
 		// further wrong-length coordinates in the slots that follow (traversal order)
 		for i, m := range more {
 			if m > 0 && k+1+i < len(slots) {
